@@ -66,6 +66,14 @@ PLAN = {
         "assumptions": ASSUME_X + ["code-point tables are encoding_rs's: the reference is encoding_rs whole-buffer decoding in the projection", "which source was used is observed through the decoded string (bodies are chosen to decode differently under the candidate charsets)"],
         "replay_runner": "charset", "replay_trace": "Trace_Charset",
     },
+    "C09": {
+        "mc": [],
+        "families": [{"gen": ("tlc", {"name": "redirect-chains", "tla": "MC_Redirect.tla", "cfg": "MC_Redirect.cfg", "cfg_thorough": "MC_Redirect_thorough.cfg", "workers": 8}),
+                      "runner": "loop", "trace": "Trace_SendLoop"}],
+        "rule": "redirect chains, cycles and self-loops enumerated by TLC: per step a status (200, 404, 300-308, 399) and a Location reference (absolute incl. other host/port/scheme, scheme-relative, absolute-path with dot segments, relative with ./.., query-only, fragment, empty, missing, unparsable, non-http scheme) x max_redirections x follow on/off; URLs computed by Rfc3986!Resolve; each chain replayed against reactive scripted peers",
+        "assumptions": ASSUME_X,
+        "replay_runner": "loop", "replay_trace": "Trace_SendLoop",
+    },
     "C19": {
         "mc": [MC_EXCHANGE],
         "families": [fam("x_small"), fam("x_large")],
